@@ -307,6 +307,7 @@ func runProperty(P *Prog, prop, tier string, seed int, verif, outDir string) *pr
 			}
 		}
 	}
+	retried := 0
 	timeout := 10
 	order := []string{"z3-new-r0", "z3-new", "z3"}
 	if tier == "thorough" {
@@ -336,6 +337,29 @@ func runProperty(P *Prog, prop, tier string, seed int, verif, outDir string) *pr
 			dischargeAll(kf, runCfg{dir: scratch + "/kf", timeout: 3, seed: seed, order: []string{"z3-new"}, workers: (runtime.NumCPU() + 1) / 2})
 		}
 		dischargeAll(rest, cfg)
+		// An obligation that ran out of time is tried once more with six times the budget before it counts as
+		// failed: on a loaded machine (several checks running side by side) a query that takes 2 s alone can exceed
+		// the quick budget, and a time-out is not a refutation. At most 24 obligations are retried per run.
+		var again []*Obligation
+		for _, o := range rest {
+			if (o.Status == "timeout" || o.Status == "unknown") && len(again) < 24 {
+				again = append(again, o)
+			}
+		}
+		if len(again) > 0 {
+			cfg2 := cfg
+			cfg2.timeout = cfg.timeout * 6
+			cfg2.dir = scratch + "/retry"
+			first := map[*Obligation]float64{}
+			for _, o := range again {
+				first[o] = o.Time
+			}
+			dischargeAll(again, cfg2)
+			for _, o := range again {
+				o.Time += first[o]
+			}
+			retried = len(again)
+		}
 	}
 	// vacuity (smoke) checks of the same units: a refuted smoke check means contradictory assumptions
 	var smokes []*Obligation
@@ -582,7 +606,7 @@ func runProperty(P *Prog, prop, tier string, seed int, verif, outDir string) *pr
 	cov := map[string]any{
 		"obligations": res.total - res.known, "discharged": res.discharged, "obligations_recorded_as_known_findings": res.known,
 		"checker_cmd":  fmt.Sprintf("govc check -prop %s -tier %s (SSA->SMT-LIB; solvers raced in order %v, timeout %ds each)", prop, tier, order, timeout),
-		"trusted_base": tb, "functions_under_contract": fnames, "by_backend": byBackend, "solver_s": solverS, "slowest": slow,
+		"trusted_base": tb, "functions_under_contract": fnames, "by_backend": byBackend, "solver_s": solverS, "slowest": slow, "retried_after_timeout": retried,
 		"samples": samples, "known_findings_matched": knownMatched, "bounded": []any{},
 		"smoke_checks": len(smokes), "smoke_refuted": smokeFailed, "functions_not_under_contract": uncovered,
 		"explanation": "every obligation is generated from the SSA of /repo's current working tree and discharged for all inputs and iterations (loops by invariants, recursion by contracts)",
